@@ -371,6 +371,10 @@ type langPseudoClassSelector struct {
 }
 
 func (s langPseudoClassSelector) Match(n *html.Node) bool {
+	if n.Type != html.ElementNode {
+		// text and comment nodes are not elements: they must not match through their parent
+		return false
+	}
 	own := matchAttribute(n, "lang", func(val string) bool {
 		return val == s.lang || strings.HasPrefix(val, s.lang+"-")
 	})
